@@ -645,9 +645,55 @@ fn huge_compressed_stream(ctx: &mut Ctx) {
     }
 }
 
+/// Compression over encryption: the whole compressed stream (blocks, size table, its 4-byte length)
+/// is `residue` bytes longer than a multiple of the encryption chunk, so that the 4-byte length at its
+/// end straddles two chunks for residues 1..3 (a read of 4 bytes there is legitimately served in two parts)
+fn stream_end_residue_case(ctx: &Ctx, residue: u64, seed: u64) -> Option<Case> {
+    let k = ctx.k;
+    let mut len = k.chunk + 70_000;
+    let mut c = Case { layer: "both".into(), len: Sz::from_concrete(len, &k), data: DataKind::Random, offset: 0, quality: 1, seed, histories: vec![], lead: (0, 0), write_piece: 0 };
+    for _ in 0..10 {
+        c.len = Sz::from_concrete(len, &k);
+        let total = fmt::enc_compress(&k, &content(&c, len), &|_| 1).len() as u64;
+        let have = total % k.chunk;
+        if have == residue % k.chunk {
+            let end = |d: u64| Tgt::FromEnd(Sz::lit(d as i64));
+            c.histories = vec![
+                vec![Op::Pos, Op::Read(Sz::lit(100)), Op::Pos, Op::SeekEnd(end(4)), Op::Pos, Op::Read(Sz::lit(9)), Op::Pos],
+                vec![Op::SeekStart(Tgt::FromStart(Sz::new(0, 1, -3))), Op::Read(Sz::lit(10)), Op::Pos, Op::SeekEnd(end(0)), Op::Pos, Op::Read(Sz::lit(1))],
+            ];
+            return Some(c);
+        }
+        let mut step = (residue as i64 - have as i64).rem_euclid(k.chunk as i64);
+        if step > k.chunk as i64 / 2 {
+            step -= k.chunk as i64;
+        }
+        len = (len as i64 + step).max(1000) as u64;
+    }
+    None
+}
+
 pub fn run(ctx: &mut Ctx) {
     if ctx.k.is_prod() && ctx.mine(11) {
         huge_compressed_stream(ctx);
+    }
+    if ctx.k.is_prod() {
+        for (i, r) in [1u64, 2, 3, 0, 4].iter().enumerate() {
+            if !ctx.mine(i as u64 + 12) {
+                continue;
+            }
+            match stream_end_residue_case(ctx, *r, ctx.seed ^ 0xE2D ^ i as u64) {
+                Some(c) => {
+                    if (1..=3).contains(r) {
+                        ctx.count("musthit:length_field_of_the_size_table_straddles_two_chunks");
+                    }
+                    if ctx.journal(&json!({"prop": "C11", "scenario": {"case": {"layer": c.layer, "len": c.len, "stream_end_residue": r}, "k": ctx.k.name()}})) {
+                        run_case(ctx, &c);
+                    }
+                }
+                None => ctx.count("tuning_not_converged"),
+            }
+        }
     }
     if ctx.k.is_prod() {
         let residues: &[i64] = if ctx.quick() { &[1, 0] } else { &[1, 0, 2, -1, 17, 4096] };
